@@ -266,6 +266,7 @@ func (e *Engine) registerIntrinsics() {
 	registerCose(e)
 	registerGhost(e)
 	registerEat(e)
+	registerJSONLib(e)
 }
 
 // ---------- nd ----------
